@@ -66,6 +66,31 @@ CONTEXTS = [
 ]
 
 
+# a trailing comma directly after a TYPE argument (name<T,>), then the closers.  coq/Parse/ParserTypes.v (R_param_tc): the
+# parser takes this comma only when the next token is a `>` of its own, so `vec2<f32,> >` is a rendering of the type and
+# `vec2<f32,>>` (one `>>` token) is not - the two differ by a blank only.  (text with {T} = "" or ",", {X} = closer; token)
+TYPE_COMMA = [
+    ("ptr_vec", "@group(0) @binding(0) var<storage, read_write> o: array<f32, 4>;\n"
+     "@compute @workgroup_size(1) fn main() {{ var v = vec2<f32>(1.0, 2.0); let p: ptr<function, vec2<f32{T}{X} = &v; o[0] = (*p).y; }}\n", ">>"),
+    ("vec_init", "@group(0) @binding(0) var<storage, read_write> o: array<f32, 4>;\n"
+     "@compute @workgroup_size(1) fn main() {{ var v: vec2<f32{T}{X}vec2<f32>(1.0, 2.0); o[0] = v.y; }}\n", ">="),
+    ("array_of_mat", "@group(0) @binding(0) var<storage, read_write> o: array<f32, 4>;\n"
+     "@compute @workgroup_size(1) fn main() {{ var a: array<mat2x2<f32{T}{X}, 2>; a[1][0].y = 2.0; let q: ptr<function, array<mat2x2<f32{T}{X}, 2>> = &a; o[0] = (*q)[1][0].y; }}\n", ">"),
+    ("ptr_atomic", "var<workgroup> w: atomic<u32>;\n@group(0) @binding(0) var<storage, read_write> o: array<u32, 4>;\n"
+     "@compute @workgroup_size(1) fn main() {{ let p: ptr<workgroup, atomic<u32{T}{X} = &w; atomicStore(p, 3u); o[0] = atomicLoad(p); }}\n", ">>"),
+]
+
+
+def type_comma_pairs():
+    out = []
+    for cname, text, tok in TYPE_COMMA:
+        canon = text.format(T="", X=tok)
+        for xi, x in enumerate(closers(tok)[:2] if len(tok) == 2 else [tok]):
+            kind = "trailing-comma-type:" + ("adjacent" if xi == 0 and len(tok) == 2 else "spaced")
+            out.append(("templ_tc_%s_x%d" % (cname, xi), canon, text.format(T=",", X=x), kind))
+    return out
+
+
 def pairs():
     """-> [(name, canonical source, edited source, edit kind)]; the canonical source of a variant spells the SAME count
     expression without redundant parentheses and the closer without gaps"""
@@ -85,4 +110,4 @@ def pairs():
             for xi, x in enumerate(closers(tok)[:2]):
                 out.append(("templ_%s_c%d_tcomma_x%d" % (cname, ci, xi), canon, text.format(C=plain + ",", X=x), "trailing-comma"))
                 out.append(("templ_%s_c%d_tcomma_p_x%d" % (cname, ci, xi), canon, text.format(C="(" + plain + "),", X=x), "trailing-comma"))
-    return out
+    return out + type_comma_pairs()
